@@ -856,7 +856,8 @@ impl Director {
                 w.viol(&["C11"], "status_available_gt_size", format!("{:?}", st));
             }
             if st.waiting > unfinished {
-                w.viol(&["C11"], "status_waiting_too_big", format!("status().waiting={} but only {} callers are inside get()", st.waiting, unfinished));
+                let props: &[&'static str] = if w.did_abandon { &["C11", "C03"] } else { &["C11"] };
+                w.viol(props, "status_waiting_too_big", format!("status().waiting={} but only {} callers are inside get()", st.waiting, unfinished));
             }
             if st.size > st.max_size && !w.shrunk && !w.closed {
                 w.viol(&["C11", "C01"], "status_size_gt_max", format!("{:?} without any shrink", st));
